@@ -128,7 +128,8 @@ use flurry::HashMap;
 use rayon::iter::{IntoParallelIterator, ParallelExtend, FromParallelIterator};
 fn main() {
     let mut bad = 0;
-    for threads in [1usize, 2, 4] {
+    std::panic::set_hook(Box::new(|_| {}));
+    for threads in [1usize, 2, 4, 8] {
         let pool = rayon::ThreadPoolBuilder::new().num_threads(threads).build().unwrap();
         pool.install(|| {
             // existing keys 0..8 with stale values; items supply two values for each of keys 4..12
@@ -143,6 +144,38 @@ fn main() {
             if m.len() != 12 { bad += 1; println!("BAD len {}", m.len()); }
             let c: HashMap<u32, u32> = HashMap::from_par_iter(items.into_par_iter());
             if c.len() != 8 { bad += 1; println!("BAD collect len {}", c.len()); }
+            // every input length 0..=12 into fresh, pre-sized, cleared and non-empty maps; must equal sequential insertion's key set
+            for n in 0..=12u32 {
+                let items: Vec<(u32, u32)> = (0..n).map(|i| (i % 4, i)).collect();
+                for kind in 0..4 {
+                    let r = std::panic::catch_unwind(std::panic::AssertUnwindSafe(|| {
+                        let mut m: HashMap<u32, u32> = match kind { 1 => HashMap::with_capacity(8), _ => HashMap::new() };
+                        if kind == 2 { m.pin().insert(99, 0); m.pin().clear(); }
+                        if kind == 3 { m.pin().insert(2, 777); }
+                        m.par_extend(items.clone());
+                        let mut keys: Vec<u32> = m.pin().keys().cloned().collect();
+                        keys.sort();
+                        let mut want: Vec<u32> = items.iter().map(|x| x.0).collect();
+                        if kind == 3 { want.push(2); }
+                        want.sort(); want.dedup();
+                        let v2 = m.pin().get(&2).cloned();
+                        (keys, want, v2)
+                    }));
+                    match r {
+                        Err(_) => { bad += 1; println!("BAD threads={} n={} kind={} par_extend panicked", threads, n, kind); }
+                        Ok((keys, want, v2)) => {
+                            if keys != want { bad += 1; println!("BAD threads={} n={} kind={} keys {:?} want {:?}", threads, n, kind, keys, want); }
+                            if kind == 3 && n > 2 && v2 == Some(777) { bad += 1; println!("BAD threads={} n={} existing key kept its stale value", threads, n); }
+                        }
+                    }
+                }
+                let r = std::panic::catch_unwind(std::panic::AssertUnwindSafe(|| {
+                    let s: flurry::HashSet<u32> = flurry::HashSet::from_par_iter(items.iter().map(|x| x.0).collect::<Vec<_>>());
+                    s.len()
+                }));
+                let want = items.iter().map(|x| x.0).collect::<std::collections::BTreeSet<_>>().len();
+                if r.as_ref().ok() != Some(&want) { bad += 1; println!("BAD threads={} n={} set collect {:?}", threads, n, r.ok()); }
+            }
         });
     }
     println!("rayon_bad={}", bad);
@@ -204,8 +237,9 @@ def run(tier: str) -> int:
     for f in closures:
         chk.encoded(f)
     rayon_fail = []
+    structure_lost = False
     if not item_closures:
-        chk.inconclusive.append('rayon per-item closure not found')
+        structure_lost = True
     for f in item_closures:
         r = P.run_monitor(f, MustCallMonitor(r'^map::HashMap::insert$'), label='C19 R1 ' + f.name)
         other = [P.callee_name(b.term) for b in f.blocks.values() if b.term.kind == 'call' and P.callee_name(b.term).startswith('map::HashMap::') and P.callee_name(b.term) != 'map::HashMap::insert']
@@ -230,9 +264,11 @@ def run(tier: str) -> int:
             r = P.run_monitor(f, MustCallMonitor(r'ParallelExtend>::par_extend$'), label='C19 R1 funnel ' + n)
             nstates += r.nodes
             ntrans += r.edges
-            chk.obligation('R1 %s: funnels into par_extend exactly once' % n, 'unsat' if r.holds else 'sat')
-            if not r.holds:
-                rayon_fail.append((f, r, []))
+            extra_calls = [c for c in calls if c.startswith('map::HashMap::') and c.rsplit('::', 1)[-1] not in ('with_hasher', 'default', 'guard', 'pin', 'len', 'is_empty')]
+            extra_calls += [c for c in calls if c.startswith('set::HashSet::') and c.rsplit('::', 1)[-1] not in ('with_hasher', 'default', 'guard', 'pin', 'len', 'is_empty')]
+            chk.obligation('R1 %s: funnels into par_extend exactly once and touches the map in no other way' % n, 'unsat' if (r.holds and not extra_calls) else 'sat')
+            if not r.holds or extra_calls:
+                rayon_fail.append((f, r, extra_calls))
     chk.coverage['states'] = nstates
     chk.coverage['transitions'] = ntrans
     chk.coverage['exhaustive'] = True
@@ -253,6 +289,8 @@ def run(tier: str) -> int:
                     chk.violation('serde:%s:%s' % (kind, f.name), desc + '\nnative replay: ' + ' | '.join(lines[:6]), REPLAY, 'serde_replay.rs')
                 else:
                     chk.inconclusive.append('%s: solver found %s but none of the %s small inputs panicked or mismatched natively' % (f.name, why, m.group(1)))
+    if structure_lost and not rayon_fail:
+        rayon_fail.append((next(f for n, f in prog.fns.items() if 'rayon_impls::' in n and not f.is_const), P.PathResult(False), ['the per-item closure `|guard, (k, v)| insert(k, v, guard)` is no longer recognisable']))
     if rayon_fail:
         p = native.run_program('c19r', RAYON_REPLAY, [], features=('rayon',), extra_deps='rayon = "1"\n', release=False, timeout=900)
         m = re.search(r'rayon_bad=(\d+)', p.stdout)
